@@ -12,7 +12,7 @@ RULE = ("random grammars (<=4 variables, <=2-3 terminals, <=7 productions, bodie
         "order; contains / `in` / generate_epsilon compared with the reference bounded language (least fixpoint) on ALL "
         "words of length <=4 (<=5 for one terminal) over the terminals plus one unknown symbol, each grammar queried fresh and after other "
         "queries. Non-trivial: the language restricted to the bound is neither empty nor everything; distinct = case hash."
-        " Later additions: print-alike (0/'0'), fresh-name (#STARTCLOS#) and blank-containing terminal classes; words as tuples, one-shot iterables, Terminal objects; the grammar is also compared with the case record given to the constructor.")
+        " Later additions: print-alike (0/'0'), fresh-name (#STARTCLOS#) and blank-containing terminal classes; words as tuples, one-shot iterables, Terminal objects; the grammar is also compared with the case record given to the constructor; a third of the two-terminal grammars on all words <=5, another third on members of length up to bound+3 and their neighbours; an eighth of the grammars are dense (binary bodies over two or three variables deriving overlapping words).")
 ASSUMPTIONS = ["membership is compared for all words up to the bound only"]
 TIERS = {
     "quick": {"workers": 4, "random": 3000},
@@ -76,7 +76,7 @@ def plan(tier, rng, sl, nslices, stats):
             c["prefix"] = rng.randrange(4)
             yield c
             continue
-        c = gcfg.random_case(rng, max_terms=rng.choice([1, 2, 2, 3]))
+        c = gcfg.dense_case(rng) if i % 8 == 5 else gcfg.random_case(rng, max_terms=rng.choice([1, 2, 2, 3]))
         c["prefix"] = rng.randrange(4)
         yield c
     if cfg.get("exhaustive"):
@@ -107,7 +107,19 @@ def run_case(c, stats):
             stats.cls("tag:" + t)
         nt = c["nt"]
         N = 5 if nt == 1 else (4 if nt == 2 else 3)
+        sel = (c["nv"] + 2 * len(c["prods"]) + sum(len(b) for _, b in c["prods"])) % 3
+        if nt == 2 and (sel == 0 or c.get("dense")) and not c.get("long_words"):
+            N = 5
         L = ref.words(N)
+        longer = []
+        if nt >= 2 and (sel == 1 or c.get("dense")) and not c.get("long_words") and len(c["prods"]) <= 8:
+            # members two and three symbols beyond the bound, and their neighbours (one symbol changed or dropped)
+            L2 = sorted((w for w in ref.words(N + 3) if len(w) > N), key=lambda x: (-len(x), repr(x)))
+            for w in L2[:3] + L2[len(L2) // 2:len(L2) // 2 + 3]:
+                longer.append(list(w))
+                k = (len(w) + c["nv"]) % len(w)
+                longer.append(list(w[:k]) + list(w[k + 1:]))
+                longer.append(list(w[:k]) + [w[(k + 1) % len(w)]] + list(w[k + 1:]))
     terms = [gcfg.tval(c, j) for j in range(nt)]
     # a random prefix of other queries first: the memo state is part of the case
     pre_q = [g.is_empty, g.get_generating_symbols, g.get_nullable_symbols, g.to_normal_form]
@@ -127,6 +139,10 @@ def run_case(c, stats):
             continue
         total += 1
         call(g.contains, values.word_form(w, total, wrap=Terminal))
+    for w in longer:
+        call(g.contains, list(w))
+    if longer:
+        stats.cls("longer_words")
     # the textual epsilon spellings are ordinary unknown symbols when they stand in a word
     for w in sorted(L, key=lambda x: (len(x), repr(x)))[:4]:
         for sp in ("$", "epsilon"):
